@@ -3,7 +3,7 @@
     theorems about [build] to what the real builder returned. *)
 From V.Lib Require Import Base MachInt.
 From V.Gen Require Import C14Consts.
-From V.C14 Require Import Model Spec Corr Wf Proofs.
+From V.C14 Require Import Model SignModel Spec Corr Wf Proofs SignProofs.
 From Coq Require Import ZifyBool.
 Local Open Scope Z_scope.
 
@@ -95,8 +95,10 @@ Qed.
 
 Theorem bridge : forall c, wf_case c = true -> run_case c = true -> prop_case c = true.
 Proof.
-  intros [r seen o] _ H. unfold run_case in H. apply andb_prop in H. destruct H as [H Hs].
+  intros [r seen sels o] _ H. unfold run_case in H. apply andb_prop in H. destruct H as [H Hsel].
+  apply andb_prop in H. destruct H as [H Hs].
   apply (option_eqb_spec shape_eqb shape_eqb_eq) in Hs.
+  apply (list_eqb_spec _ (list_eqb_spec sel_eqb sel_eqb_eq)) in Hsel.
   unfold prop_case.
   destruct (build r) as [m|em|] eqn:B; destruct o as [b|e|]; cbn [outcome_eqb] in H; try discriminate.
   - apply built_eqb_eq in H. subst m.
@@ -112,7 +114,13 @@ Proof.
       destruct (is_pczt r); cbn [andb]; auto using Z.eqb_refl. }
     assert (Ho : header_okb r b = true).
     { unfold header_okb. rewrite G1, G2, G3, G4, ver_eqb_refl, !Z.eqb_refl. reflexivity. }
-    rewrite Fo, Ho. cbn [andb]. rewrite <- Hs, (model_seen_ok _ _ DR R), F2.
+    assert (So : sels_okb r b sels = true).
+    { subst sels. unfold sels_okb, expected_sels. destruct (is_pczt r) eqn:Pz; [reflexivity|].
+      rewrite G1. destruct (build_ok_inv _ _ B) as (hd' & fee' & R' & _ & _ & _ & _ & RT).
+      unfold route_ok in RT. unfold is_pczt in Pz.
+      destruct (run_ops_hdr _ _ R') as (Hv' & _ & _). rewrite <- Hv'.
+      apply model_sels_ok. destruct (r_route r); try discriminate; tauto. }
+    rewrite Fo, Ho, So. cbn [andb]. rewrite <- Hs, (model_seen_ok _ _ DR R), F2.
     destruct (r_rule r); [reflexivity|apply shape_eqb_refl].
   - apply berr_eqb_eq in H. subst em.
     destruct (build_err_amount _ _ B) as [A1 A2].
